@@ -51,7 +51,7 @@ pub struct View {
     ///
     /// This is only used for printing SFS to plain text format, and will be ignored otherwise.
     #[clap(long, default_value_t = 6, value_name = "INT")]
-    pub precision: usize,
+    pub precision: u16,
 }
 
 #[derive(Args, Debug, Eq, PartialEq)]
@@ -200,7 +200,7 @@ impl View {
         }
 
         spectrum::io::write::Builder::default()
-            .set_precision(self.precision)
+            .set_precision(usize::from(self.precision))
             .set_format(sfs_core::spectrum::io::Format::from(self.output_format))
             .write_to_path_or_stdout(self.output, &scs)?;
 
